@@ -256,7 +256,7 @@ Qed.
 (* ================================================================ one round of the tokenizer *)
 Lemma consume_operator ctx prev (c : N) (r : list N) op :
   (c =? c_dollar) = false -> is_space c = false -> is_allowed_repeater c ctx = false ->
-  (exists e, lit (cquote ctx) (cattr ctx) (cexpr ctx) (cexpr ctx) prev false (c :: r) = ([], O, e)) ->
+  (exists e, lit (cquote ctx) (cattr ctx) (Z.min (cexpr ctx) 1) (cexpr ctx) prev false (c :: r) = ([], O, e)) ->
   operator_type c = Some op ->
   consume ctx prev (c :: r) = (CTok (TOperator op) 1, ctx).
 Proof.
@@ -268,7 +268,7 @@ Qed.
 
 Lemma consume_quote ctx prev (c : N) (r : list N) :
   (c =? c_dollar) = false -> is_space c = false -> is_allowed_repeater c ctx = false ->
-  (exists e, lit (cquote ctx) (cattr ctx) (cexpr ctx) (cexpr ctx) prev false (c :: r) = ([], O, e)) ->
+  (exists e, lit (cquote ctx) (cattr ctx) (Z.min (cexpr ctx) 1) (cexpr ctx) prev false (c :: r) = ([], O, e)) ->
   operator_type c = None -> is_quote c = true ->
   consume ctx prev (c :: r) =
     (CTok (TQuote (c =? c_squote)) 1,
